@@ -82,6 +82,8 @@ def all_cases(tier):
                     for early in (False, True):
                         yield ("L", h, mask, order, early)
     yield from _cases_N(tier)
+    for shape in SN_SHAPES:
+        yield ("SN", shape)
 
 
 # N: the same hierarchies with class paths that are textual prefixes / suffixes of each other (same class name in m7, pk7.m7, pk7.pk7.m7;
@@ -100,6 +102,19 @@ def _cases_N(tier):
             if any(h):
                 for naming in NAMINGS:
                     yield ("N", h, naming)
+
+
+# SN: a class that takes over the NAME of its own base (`from m import C` then `class C(C)`, a nested class named like an outer one):
+# CPython evaluates the base before the name is re-bound; it is never a cycle.  CPython itself (a real import) is the oracle.
+SN_SHAPES = {
+    "import-same-name": {"sn7a.py": "class C:\n    def m(self): ...\n", "sn7b.py": "from sn7a import C\nclass C(C):\n    def n(self): ...\n"},
+    "import-same-name-chain3": {"sn7a.py": "class C:\n    def m(self): ...\n", "sn7b.py": "from sn7a import C\nclass C(C):\n    pass\n", "sn7c.py": "from sn7b import C\nclass C(C):\n    pass\nclass D(C):\n    pass\n"},
+    "import-as-same-name": {"sn7a.py": "class Base:\n    def m(self): ...\n", "sn7b.py": "from sn7a import Base as C\nclass C(C):\n    pass\n"},
+    "package-same-name": {"sp7/__init__.py": "", "sp7/base.py": "class Handler:\n    def h(self): ...\n", "sp7/sub.py": "from sp7.base import Handler\nclass Handler(Handler):\n    pass\nclass Leaf(Handler):\n    pass\n"},
+    "nested-same-name": {"sn7a.py": "class A:\n    def m(self): ...\nclass Outer:\n    class A(A):\n        pass\n    class B(A):\n        pass\n"},
+    "nested-same-name-import": {"sn7a.py": "class A:\n    def m(self): ...\n", "sn7b.py": "from sn7a import A\nclass Outer:\n    class A(A):\n        pass\n"},
+    "with-mixin": {"sn7a.py": "class C:\n    pass\nclass Mixin:\n    pass\n", "sn7b.py": "from sn7a import C, Mixin\nclass C(Mixin, C):\n    pass\n"},
+}
 
 
 def _has_cycle(h):
@@ -397,6 +412,50 @@ def _run_case(griffe, acc, case):
                     what = "raise-" + got[1] if got[0] == "raise" else "rejects-consistent" if got[0] == "reject" else "accepts-inconsistent" if want[0] == "reject" else "order"
                     acc.violation(f"mro/{what}/related-paths/{case[2]}", f"{cls.path}: Griffe {got}, CPython {want}", case, {"files": files})
         acc.case(case, outcome="names:" + ",".join(sorted(set(outs))), nontrivial=True)
+        acc.observe(outs)
+    elif kind == "SN":
+        import importlib
+        import sys
+
+        files = SN_SHAPES[case[1]]
+        tops = sorted({f.split("/")[0].removesuffix(".py") for f in files})
+        modnames = sorted(f.removesuffix(".py").removesuffix("/__init__").replace("/", ".") for f in files)
+        with sandbox.scratch_dir("c07s") as d, sandbox.interpreter_state():
+            sandbox.write_tree(d, files)
+            sys.path.insert(0, d)
+            importlib.invalidate_caches()
+            expect = {}
+            for mn in modnames:
+                pm = importlib.import_module(mn)
+
+                def walk(ns, prefix):
+                    for k, v in vars(ns).items():
+                        if isinstance(v, type) and v.__module__ == mn and v.__qualname__ == (prefix + k).split(".", mn.count(".") + 1)[-1]:
+                            expect[f"{mn}.{v.__qualname__}"] = [f"{c.__module__}.{c.__qualname__}" for c in v.__mro__[1:-1]]
+                            walk(v, prefix + k + ".")
+
+                walk(pm, mn + ".")
+            for k in [k for k in sys.modules if k.split(".")[0] in tops]:
+                del sys.modules[k]
+            loader = griffe.GriffeLoader(search_paths=[d])
+            for top in tops:
+                loader.load(top)
+            loader.resolve_aliases(implicit=True)
+            outs = []
+            for path, want in sorted(expect.items()):
+                cls = loader.modules_collection[path]
+                try:
+                    with sandbox.time_limit(10):
+                        got = [c.path for c in cls.mro()]
+                except ValueError as e:
+                    got = "ValueError: " + str(e)[:80]
+                except Exception as e:  # noqa: BLE001
+                    got = "raise " + type(e).__name__
+                outs.append(got == want)
+                if got != want:
+                    what = "false-cycle" if isinstance(got, str) and "cycle" in got else "raise" if isinstance(got, str) else "order"
+                    acc.violation(f"mro/{what}/same-name-as-base/{case[1]}", f"{path}: Griffe {got}, CPython {want}", case, {"files": files})
+        acc.case(case, outcome="same-name:" + ("ok" if all(outs) else "differs"), nontrivial=True)
         acc.observe(outs)
     elif kind == "Y":
         mod = _load_single(griffe, _source(h))
